@@ -14,8 +14,7 @@ LEAN_DEPS = ['Pfst.Props.C14Tables', 'Pfst.Props.C14TablesB', 'Pfst.Props.C14Cov
              'Pfst.Walk', 'Pfst.SynOrder', 'Pfst.TableCheck', 'Pfst.Drv.C14']
 THEOREMS = [
     'Pfst.C14.walkEnter_preorder', 'Pfst.C14.walkEnter_norecurse', 'Pfst.C14.walkLeave_postorder',
-    'Pfst.C14.walkLeave_exact', 'Pfst.C14.walkLeave_postorder_false', 'Pfst.C14.walkBoth_bracket',
-    'Pfst.C14.walkBoth_bracket_noself', 'Pfst.C14.walkBoth_exact', 'Pfst.C14.walkBoth_bracket_false',
+    'Pfst.C14.walkLeave_postorder_self', 'Pfst.C14.walkBoth_bracket', 'Pfst.C14.walkBoth_bracket_noself',
     'Pfst.C14.walkLeave_norecurse', 'Pfst.C14.walkBoth_norecurse', 'Pfst.C14.leave_is_reversed_enter',
     'Pfst.C14.walk_nodup_perm', 'Pfst.C14.walkBoth_each_twice', 'Pfst.C14.back_sibling_only', 'Pfst.C14.step_iter',
     'Pfst.C14.step_iter_back', 'Pfst.C14.step_fwd_first', 'Pfst.C14.next_prev_inverse',
@@ -59,8 +58,8 @@ LEVEL_TEXT = ('Lean 4 theorems about an executable model of FST.walk (explicit-s
               'every AST child exactly once, static field orders pinned); model tied to /repo by per-run correspondence.')
 LEVEL_NOTE = ('Theorems are about the model; the tie is extraction (tables, exhaustive on the tabulated shapes) plus '
               'differential runs on real trees.  "Order their text appears" is tied to CPython positions by the per-run '
-              'oracle, not by a theorem.  on=leave/both yield the walk root regardless of the `all` filter: proved as '
-              '*_false witnesses, reported as finding C14-F1.')
+              'oracle, not by a theorem.  Finding C14-F1 (on=leave/both yielded the walk root regardless of the `all` '
+              'filter) is repaired in /repo; model and theorems describe the repaired code at full strength.')
 TECHNIQUE = 'Lean 4 proof (well-founded stack machines vs structural specs, zipper navigation, decide +kernel on extracted tables) + model-implementation correspondence + CPython oracle'
 
 GEN = framework.LEAN / 'Pfst' / 'Gen'
